@@ -73,6 +73,18 @@ CHECKS = {
             rapid("context", "^TestC07Context$", 80000, 16, timeout=3000),
         ],
     },
+    "C08": {
+        "quick": [
+            plain("regress", "^TestRegressC08"),
+            rapid("sequential", "^TestC08Sequential$", 2500, 4),
+            rapid("concurrent", "^TestC08Concurrent$", 300, 2),
+        ],
+        "thorough": [
+            plain("regress", "^TestRegressC08"),
+            rapid("sequential", "^TestC08Sequential$", 60000, 12, timeout=3000),
+            rapid("concurrent-race", "^TestC08Concurrent$", 2500, 8, race=True, timeout=3000),
+        ],
+    },
     "C10": {
         "quick": [
             plain("regress", "^TestRegressC10"),
@@ -117,6 +129,7 @@ CHECKS = {
 LEVELS = {"C10": "fault_enumeration"}
 
 RULES = {
+    "C08": "cases = metamorphic: a probe call P (generated EncoderConfig, JSON or console, With context, field tree with failing members, any level incl. Panic/Fatal with returning hooks, caller+stack on/off, call depth 0/3/70) issued from one source line before and after a generated history H (1-14 ops on OTHER loggers: logs of very different sizes, namespaces left open, reflected values, error arrays, deep stack captures, terminal levels with returning hooks, encoder clones, double GC, pool poisoning with a sentinel through internal/bufferpool), after GC, after H again; concurrent variant with 2-6 goroutines running histories while P is observed. Oracle = byte-identical output and identical side effects (sink writes, terminal hook and entry hook counts); sentinel never visible. Non-trivial = H uses at least one pool and contains a buffer > 1KiB. Distinct = distinct (probe shape, multiset of history op kinds, probe field kinds).",
     "C07": "cases = rapid state machine over a growing tree of loggers: derive from a random node by With / WithLazy / Named / WithOptions(Fields) / Sugar / Desugar (sugared equivalents included), fields incl. namespaces, Spec values and objects backed by a marshaler the machine mutates between steps; log through random nodes; GC; finally log through every node in a drawn order; over 10 core compositions (JSON, console, observer, tees, sampler, hooked, level-increased, lazy, all combined). Model = per-node ordered path fields with explicit evaluation time (With: at derivation; WithLazy: at first use of the node or of any descendant core). Non-trivial = a log through a node whose parent has context and >= 2 children after >= 3 derivations, or a lazy node pending while its marshaler was mutated. Distinct = distinct (core kind, derivation tree shape).",
     "C03": "cases = one row per exported constructor of field.go/array.go/error.go/exp/zapfield (completeness checked against the parsed source at run time) with full-range values and boundary tables, through the value, pointer, slice and zap.Any routes; field lists with nested marshalers; values that zap.Any does not special-case. Oracle = independent recording encoder (exact value, bits, instant+zone, byte-identical slices, explicit null, no call for nil errors), Any vs typed constructor agreement, Equals laws. Non-trivial = boundary/extreme value, pointer, slice, nil pointer, time or Any route. Distinct = distinct (constructor kind, value class, ptr, any) resp. kind multisets. excluded_known counts reflexivity assertions skipped for K1 inputs.",
     "C01": "cases = EncoderConfig (keys empty/hostile/duplicate; built-in, nil, no-op and layout sub-encoders; line endings) x Entry (any int8 level, hostile zones, caller, stack) x 0-3 With rounds x call-site fields from typed Spec trees (all constructor families, zap.Any routing, nesting depth <= 3, failing marshalers, panicking/nil stringers and errors, unencodable reflected values). Non-trivial = has a nested marshaler, namespace, failing member, non-empty With context, nil/no-op/layout sub-encoder or hostile key. Distinct = distinct (config shape, field-kind multiset, depth, fault count, With rounds).",
@@ -137,6 +150,11 @@ ASSUMPTIONS = {
 TRUST = "Trusted base: Go toolchain/runtime, rapid's generators and shrinker, the reference model/oracle code in /verif/harness/props, and the standard-library packages used as reference implementations. Search-based: absence of a counterexample in the generated cases is not a proof."
 
 META = {
+    "C08": {
+        "technique": "metamorphic property testing (rapid): same probe call before/after generated histories, GC and pool poisoning must be byte-identical; concurrent variant under the race detector",
+        "level_text": "The probe's bytes and side effects must be a function of its inputs only: they are compared before and after generated histories on other loggers that exercise every internal pool (buffers, JSON encoders, slice encoders, checked entries, error-array wrappers, stack storage), after forced GCs and after poisoning pooled buffers with a sentinel; in the thorough tier also while other goroutines keep producing traffic, under -race. Exploration: histories are unbounded and pool reuse is best-effort, so sequential cases pin GOMAXPROCS(1) to make a freed object the next one handed out.",
+        "level_note": TRUST + " sync.Pool reuse is deterministic only per P; concurrent reuse is sampled. The harness imports go.uber.org/zap/internal/bufferpool to poison pooled buffers.",
+    },
     "C07": {
         "technique": "model-based stateful property testing (rapid t.Repeat): logger derivation tree vs reference model of per-node context with explicit evaluation times",
         "level_text": "A generated history derives loggers from arbitrary existing loggers and logs through them in arbitrary order; after every log call the emitted entry (decoded JSON line, console context and observer fields, whichever the core composition has) must equal exactly the model's path fields followed by the call-site field under the dot-joined name; mutable marshalers make the With/WithLazy evaluation point observable. Exploration: histories are unbounded; small trees already exercise clone-on-derive, encoder buffer cloning, capacity-capped appends and once-only lazy evaluation.",
